@@ -109,6 +109,30 @@ def boxPoints (p q : V3) : List V3 :=
 /-- `Extrude(base, amount)` with a vector amount: `top_face = base.copy().translate(amount)` -/
 def extrudePoints (base : List V3) (v : V3) : List V3 := base ++ base.map (· + v)
 
+/-- `f.rotate(point, angle, axis, origin)` = `origin + expm(angle · [axis/|axis|]×) (point − origin)` in Rodrigues' form, with
+    the cosine `c` and sine `s` of the angle and the length `len` of the axis supplied (witnesses: `c² + s² = 1`,
+    `len² = |axis|²`; the harness generates angles `2·atan t` and axes of rational length, so all three are rational) -/
+def rotateP (c s : Rat) (axis : V3) (len : Rat) (o p : V3) : V3 :=
+  let u := V3.smul (1 / len) axis
+  let r := p - o
+  o + (V3.smul c r + V3.smul s (V3.cross u r) + V3.smul ((1 - c) * V3.dot u r) u)
+
+/-- `Revolve(base, angle, axis, origin)`: `top_face = base.copy().rotate(angle, axis, origin)` -/
+def revolvePoints (base : List V3) (c s : Rat) (axis : V3) (len : Rat) (o : V3) : List V3 :=
+  base ++ base.map (rotateP c s axis len o)
+
+/-- `Wedge(face, angle)`: `base = face.copy().rotate(-angle / 2, [1,0,0], [0,0,0])`, then `Revolve(base, angle, [1,0,0], [0,0,0])`;
+    `c2`, `s2`: cosine and sine of `angle / 2` (so the angle itself has cosine `c2² − s2²` and sine `2·s2·c2`) -/
+def wedgePoints (face : List V3) (c2 s2 : Rat) : List V3 :=
+  let ax : V3 := ⟨1, 0, 0⟩
+  let base := face.map (rotateP c2 (-s2) ax 1 V3.zero)
+  revolvePoints base (c2 * c2 - s2 * s2) (2 * s2 * c2) ax 1 V3.zero
+
+/-- `Extrude(base, amount)` with a scalar amount: `extrude_vector = base.normal * amount`, `base.normal` the unit vector of the
+    raw normal; `len`: the length of `normalOf base` (witness, `len² = |normalOf base|²`) -/
+def extrudeScalar (base : List V3) (amount len : Rat) : List V3 :=
+  extrudePoints base (V3.smul (amount / len) (normalOf base))
+
 /-! ### line protocol -/
 
 def showPts (ps : List V3) : String := "|".intercalate (ps.map V3.toStr)
@@ -147,6 +171,33 @@ def handleExtrude (args : List String) : Option String :=
   | [a, b, c, d, v] => do
       let base ← [a, b, c, d].mapM parseV3?
       some (showPts (extrudePoints base (← parseV3? v)))
+  | _ => none
+
+/-- `c10.revolve p0 p1 p2 p3 c s axis len origin` → the eight corners -/
+def handleRevolve (args : List String) : Option String :=
+  match args with
+  | [a, b, c, d, co, si, ax, len, o] => do
+      let base ← [a, b, c, d].mapM parseV3?
+      let len ← parseRat? len
+      if len = 0 then none
+      else some (showPts (revolvePoints base (← parseRat? co) (← parseRat? si) (← parseV3? ax) len (← parseV3? o)))
+  | _ => none
+
+/-- `c10.wedge p0 p1 p2 p3 c2 s2` → the eight corners -/
+def handleWedge (args : List String) : Option String :=
+  match args with
+  | [a, b, c, d, co, si] => do
+      let face ← [a, b, c, d].mapM parseV3?
+      some (showPts (wedgePoints face (← parseRat? co) (← parseRat? si)))
+  | _ => none
+
+/-- `c10.extrudes p0 p1 p2 p3 amount len` → the eight corners -/
+def handleExtrudeScalar (args : List String) : Option String :=
+  match args with
+  | [a, b, c, d, am, len] => do
+      let base ← [a, b, c, d].mapM parseV3?
+      let len ← parseRat? len
+      if len = 0 then none else some (showPts (extrudeScalar base (← parseRat? am) len))
   | _ => none
 
 end CBV.C10
